@@ -30,6 +30,13 @@ class Block(Case):
     prop = "C01"
     canary_scale = "Ae0"
 
+    @property
+    def concrete(self):
+        c = self.params.get("exps")
+        if not c:
+            return None
+        return {f"{t}e{k}": v for t, vs in zip("AB", c) for k, v in enumerate(vs)}
+
     def inputs(self, mk):
         p = self.params
         return dict(sa=shell_spec(mk, "A", p["la"], p["Ka"], p["Ma"]), sb=shell_spec(mk, "B", p["lb"], p["Kb"], p["Mb"]))
@@ -123,19 +130,25 @@ def cases(tier):
     out.append(Asymm(ls=[1, 0, 1], types="ccs", Ks=[1, 1, 1], Ms=[1, 2, 1], n1=1))
     out.append(Asymm(ls=[0, 2, 1], types="csc", Ks=[2, 1, 1], Ms=[1, 1, 1], n1=2))
     if tier == "thorough":
+        E = cm.EXP_POOL
         for la in range(4):
             for lb in range(4):
-                out.append(Block(la=la, lb=lb, Ka=2, Kb=2, Ma=2, Mb=2))
+                if la + lb <= 2:
+                    out.append(Block(la=la, lb=lb, Ka=2, Kb=2, Ma=2, Mb=2))
+                else:  # Level B: concrete exponents, everything else symbolic
+                    out.append(Block(la=la, lb=lb, Ka=2, Kb=2, Ma=2, Mb=2,
+                                     exps=[[str(E[(la + k) % 6]) for k in range(2)], [str(E[(lb + 3 + 2 * k) % 6]) for k in range(2)]]))
         for la, lb in [(0, 0), (1, 0), (1, 1), (2, 0)]:
             out.append(Block(la=la, lb=lb, Ka=3, Kb=2, Ma=1, Mb=3))
         for l in (3, 4, 5):
             out.append(Public(ls=[l], types="c", Ks=[1], Ms=[1]))
-            out.append(Public(ls=[l], types="s", Ks=[1], Ms=[1]))
+            if l < 5:  # l = 5 spherical: 11 x 11 sums over 21 x 21 components with a dozen root atoms each - beyond 30 min
+                out.append(Public(ls=[l], types="s", Ks=[1], Ms=[1]))
         out.append(Public(ls=[3], types="c", Ks=[2], Ms=[2]))
-        out.append(Public(ls=[2, 2], types="ss", Ks=[1, 2], Ms=[1, 1]))
+        out.append(Public(ls=[2, 2], types="ss", Ks=[1, 1], Ms=[1, 2]))
         out.append(Public(ls=[2, 1], types="cs", Ks=[2, 1], Ms=[1, 2]))
         out.append(Public(ls=[0, 1, 2], types="csc", Ks=[1, 1, 1], Ms=[1, 1, 1]))
-        out.append(Public(ls=[3, 1], types="sc", Ks=[1, 1], Ms=[1, 1]))
+        out.append(Public(ls=[3, 0], types="sc", Ks=[1, 1], Ms=[1, 1]))
         out.append(Asymm(ls=[2, 1, 0, 1], types="sccs", Ks=[1, 1, 2, 1], Ms=[1, 1, 1, 2], n1=2))
     return out
 
